@@ -268,3 +268,17 @@ func init() {
 		return c
 	})
 }
+
+func init() {
+	// core.(*path).run: the event loop of a newly created path is not part of a reload step
+	reg("(*"+modPathConst+"/internal/core.path).run", noop)
+}
+
+func init() {
+	// core.emptyTimer: a timer that has fired and been drained; timers are not modelled
+	reg(modPathConst+"/internal/core.emptyTimer", func(m *Machine, fr *frame, a []Value) Value {
+		cell := new(Value)
+		*cell = zero(deref(fr.fn.Signature.Results().At(0).Type()))
+		return cell
+	})
+}
